@@ -137,6 +137,7 @@ MUTANTS: list[M] = [
     M("map-not-the-extracted-one", ("C06",), TW, "        return _restore_atomic_constructs(tokens, construct_map)", "        return _restore_atomic_constructs(tokens, dict(list(construct_map.items())[:64]))", "R-LOSSLESS-L5"),
     M("denormalize-skipped", ("C06",), TW, "    return denormalize_adjacent_tags(result)", "    return result", "R-LOSSLESS-L6"),
     M("merge-without-short-test", ("C11",), LW, "                and length(lines[-1]) < min_line_len\n                and length(lines[-1]) + 1", "                and length(lines[-1]) + 1", "R-SENT"),
+    M("merge-when-long", ("C11",), LW, "                and length(lines[-1]) < min_line_len\n                and length(lines[-1]) + 1", "                and length(lines[-1]) > min_line_len\n                and length(lines[-1]) + 1", "R-SENT"),
     M("reads-older-line", ("C11",), LW, "            if len(lines) > 0 and length(lines[-1]) < min_line_len:\n                current_column += length(lines[-1])", "            if len(lines) > 1 and length(lines[-2]) < min_line_len:\n                current_column += length(lines[-2])", "R-SENT"),
     M("min-length-splitter", ("C11",), LW, "    return split_sentences_regex(text, min_length=0)", "    return split_sentences_regex(text)", "R-SENT-split"),
     # ---- C12 termination
